@@ -99,7 +99,8 @@ def gen_design(r, ncells=None, nlibs=None):
                 if prev_bus is not None and prev_bus[0] != prev_bus[1] and r.random() < 0.6:
                     bname = prev_bus[0]         # crossing: this bus is NAMED like the identifier of its sibling (whose name differs)
                 prev_bus = (bid, bname)
-                idxs = r.sample(range(0, 9), r.randint(1, 4))
+                off_ = r.choice([0, 0, 0, 254, 300])        # (bit numbers up to and beyond 256)
+                idxs = [off_ + k_ for k_ in r.sample(range(0, 9), r.randint(1, 4))]
                 for ix in idxs:
                     k2 = min(len(eps), r.choice([0, 1, 2, 3]))
                     joined, eps = eps[:k2], eps[k2:]
